@@ -54,6 +54,8 @@ type loopInfo struct {
 }
 
 type Enc struct {
+	sentinels    []Term
+	unstatable   []string
 	noCallsQuery bool // evaluating nocalls(): a pattern that matches no call is what is being claimed
 	W            *World
 	closureOf    map[string]*ssa.MakeClosure // closure constant -> the instruction that made it (methodvalue())
